@@ -233,6 +233,7 @@ class Recorder:
         self._w1 = _Writer(1)
         self.other = None        # OtherWriter in progress
         self.cur_crcs = ()       # checksums of the connection in progress
+        self.wfiles = []         # cache files open for writing
         self.gone = set()        # directories removed by the environment and not recreated since
         self.sc = sc
         self.base = base
@@ -414,9 +415,12 @@ class WrapFile:
     pieces (k bytes, then the rest), with an event after each piece -- a crash can fall in between."""
 
     def __init__(self, r, f, d, c):
-        self.r, self.f, self.d, self.c = r, f, d, c
+        self.r, self.f, self.d, self.c = r, f, d, c      # d, c follow the file when it is renamed while open
         self.buf = []
         self.closed_ok = False
+        self.info = {'intended': None, 'tab': r.pend_tab, 'garbage': None}
+        r.fileinfo[(d, c)] = self.info
+        r.wfiles.append(self)
 
     def write(self, data):
         self.buf.append(data)
@@ -432,24 +436,28 @@ class WrapFile:
         self.close()
 
     def close(self):
-        r, d, c = self.r, self.d, self.c
+        r = self.r
         data = ''.join(self.buf).encode(self.f.encoding or 'utf-8')
         n = len(data)
-        r.fileinfo[(d, c)]['intended'] = data
+        self.info['intended'] = data
         k = r.wk if (r.wk is not None and r.who == 1) else n // 2
         k = max(1, min(k, n - 1))
         raw = self.f.buffer
         try:
             raw.write(data[:k])
             raw.flush()
-            r.emit({'e': 'wbyte', 'dir': d, 'crc': c, 'cut': 1, 'k': k, 'of': n, 'who': r.who, 'icrc': r.icrc}, True)
+            r.emit({'e': 'wbyte', 'dir': self.d, 'crc': self.c, 'cut': 1, 'k': k, 'of': n, 'who': r.who,
+                    'icrc': r.icrc}, True)
             raw.write(data[k:])
             raw.flush()
-            r.emit({'e': 'wbyte', 'dir': d, 'crc': c, 'cut': 2, 'k': n, 'of': n, 'who': r.who, 'icrc': r.icrc}, True)
+            r.emit({'e': 'wbyte', 'dir': self.d, 'crc': self.c, 'cut': 2, 'k': n, 'of': n, 'who': r.who,
+                    'icrc': r.icrc}, True)
         except Crash:
             self.f.close()
+            r.wfiles.remove(self)
             raise
         self.f.close()
+        r.wfiles.remove(self)
         self.closed_ok = True
 
 
@@ -529,7 +537,6 @@ def _install():
         d, c = r.locate(name)
         wf = WrapFile(r, f, d, c)
         r.opened = wf
-        r.fileinfo[(d, c)] = {'intended': None, 'tab': r.pend_tab, 'garbage': None}
         try:
             r.emit({'e': 'ibegin', 'dir': d, 'crc': c, 'who': r.who}, True)
         except Crash:
@@ -551,6 +558,9 @@ def _install():
                 (d1, c1), (d2, c2) = r.locate(src), r.locate(dst)
                 if (d1, c1) in r.fileinfo:
                     r.fileinfo[(d2, c2)] = r.fileinfo.pop((d1, c1))
+                for wf in r.wfiles:          # a file that is open for writing keeps receiving its writer's bytes
+                    if (wf.d, wf.c) == (d1, c1):
+                        wf.d, wf.c = d2, c2
                 r.emit({'e': 'rename', 'dir': d2, 'from': c1, 'crc': c2, 'who': r.who}, True)
 
         def replace(self, src, dst, **kw):
@@ -1260,9 +1270,21 @@ def signature(trace, clause, at):
             state[k] = 'truncated'
             openw = k
         elif x['e'] == 'wbyte':
-            state[k] = 'complete' if x['k'] == x['of'] else 'truncated'
+            state[k] = ('complete' if x.get('icrc', x['crc']) == x['crc'] else 'foreign:' + x['icrc']) \
+                if x['k'] == x['of'] else 'truncated'
         elif x['e'] == 'cut' and x['k'] < x['of']:
             state[k] = 'truncated'
+        elif x['e'] == 'rename':
+            src = state.pop((x['dir'], x['from']), None)
+            if src is not None:
+                if src.startswith('foreign:'):
+                    src = 'complete' if src[8:] == x['crc'] else src
+                state[k] = src
+        elif x['e'] in ('rmdir',):
+            for kk in [kk for kk in state if kk[0] == x['dir']]:
+                state[kk] = 'removed'
+        elif x['e'] == 'blockname':
+            state[k] = 'directory'
         elif x['e'] == 'garbage':
             state[k] = x['cls']
         elif x['e'] == 'remove':
@@ -1276,7 +1298,7 @@ def signature(trace, clause, at):
             crc = conn['lc'] if kd == 'log' else conn['pc']
             for (d, c), s in state.items():
                 if c == crc and s != 'complete':
-                    classes.add(s)
+                    classes.add('foreign' if s.startswith('foreign:') else s)
     return '%s/%s' % (clause, '+'.join(sorted(classes)) or 'nodamage')
 
 
@@ -1987,6 +2009,7 @@ def main(tier, seed, replay=None):
         step = max(1, len(lst) // (15 if quick else 60))
         sub += lst[::step]
     sub = [{k: v for k, v in sc.items() if k != 'project'} for sc in sub]
+    sub += [sc for sc in scs if (sc.get('family') or '').startswith(('concurrent:split:AA', 'openfail:rmdir:noneA'))]
     ro_extra = [{'tables': base, 'ops': proc('none', 'A', ['connect', 0, LC, 1, PC]) +
                  [['copy', 'A', crc_str(LC), 'B']] + proc('B', 'none', ['connect', 0, LC, 1, PC])}]
     names = sorted(MUTANTS)
